@@ -164,27 +164,43 @@ class View:
         return None
 
 
-def simple_paths(body, limit=20000):
+def simple_paths(body, limit=200000):
     """all simple paths from the entry block; a path ends at a block without successors
     (return / unreachable / diverging call) or just before it would revisit a block ('continue').
     yields (blocks list, end_kind, next_block_or_None)"""
+    cached = getattr(body, '_simple_paths', None)
+    if cached is not None:
+        return cached
     out = []
-    stack = [(0, [0])]
-    while stack:
-        b, path = stack.pop()
-        succ = body.succ[b]
-        if not succ:
-            t = body.blocks[b]['term'].get('t')
-            kind = {'return': 'return', 'unreachable': 'unreachable'}.get(t, 'diverge')
-            out.append((path, kind, None))
-        else:
-            for s in reversed(succ):
-                if s in path:
-                    out.append((path, 'continue', s))
-                else:
-                    stack.append((s, path + [s]))
+    # iterative DFS with an explicit path stack and an on-path set (O(1) membership)
+    path = [0]
+    onpath = {0}
+    iters = [iter(body.succ[0])]
+    if not body.succ[0]:
+        t = body.blocks[0]['term'].get('t')
+        out.append(([0], {'return': 'return', 'unreachable': 'unreachable'}.get(t, 'diverge'), None))
+    while iters:
+        adv = False
+        for s in iters[-1]:
+            if s in onpath:
+                out.append((list(path), 'continue', s))
+                continue
+            path.append(s); onpath.add(s)
+            succ = body.succ[s]
+            if not succ:
+                t = body.blocks[s]['term'].get('t')
+                out.append((list(path), {'return': 'return', 'unreachable': 'unreachable'}.get(t, 'diverge'), None))
+                path.pop(); onpath.discard(s)
+                continue
+            iters.append(iter(succ))
+            adv = True
+            break
+        if not adv:
+            iters.pop()
+            b = path.pop(); onpath.discard(b)
         if len(out) > limit:
             raise RuntimeError('too many paths')
+    body._simple_paths = out
     return out
 
 
